@@ -74,6 +74,14 @@ def run(ctx, spec):
             ctx.violation("preprocessing panicked: " + o["Pre"][-1]["Panic"][:200], {"case": c, "panic": o["Pre"][-1]["Panic"]})
             concrete += 1
             continue
+        if o.get("Sol") and not o.get("U") and o.get("Pre") and not o.get("SolvePanic"):
+            # a solution was reported although the observer saw no solver call: judge what was reported
+            from .. import physics as _P
+            try:
+                o["U"] = _P.u_from_solution(o)
+                o["UReconstructed"] = True
+            except Exception:
+                pass
         fails = []
         if spec.get("text_fidelity"):
             # the property speaks about the structure the FILE describes: what the implementation's reader
